@@ -215,6 +215,9 @@ class Randomizer(RandIF):
                     active_randsets.append(rs)
                     for f in rs.all_fields():
                         f.dispose()
+                    # Also release the solver nodes of fields that are
+                    # only reachable through the constraints (eg array size)
+                    RandSetDisposeVisitor().dispose(rs)
                         
                 if self.solve_fail_debug > 0:
                     raise SolveFailure(
@@ -481,6 +484,7 @@ class Randomizer(RandIF):
         for rs in active_randsets:
             for f in rs.all_fields():
                 f.dispose()
+            RandSetDisposeVisitor().dispose(rs)
             
         return ret            
     
